@@ -164,7 +164,11 @@ def run(ctx):
         try:
             cases.append(mcs.coq_find_case(rec)); cmeta.append(rec["inputs"])
         except ValueError as e:
-            ctx.fail("attached-data-not-own-job-result", {"inputs": rec["inputs"]}, {"error": str(e)})
+            # the same wall-clock effect as above: a record filled by a worker thread after its job had been reported as timed out
+            if any((j["issue"] or "") == "MCS search terminated by timeout." for j in rec["jobs"].values()):
+                ctx.timing_unstable += 1
+            else:
+                ctx.fail("attached-data-not-own-job-result", {"inputs": rec["inputs"]}, {"error": str(e)})
     bad, errors = eval_cases("c10f", mcs.HDR, mcs.DEFS, cases, ctx.work, shard=10)
     for fn, o in errors:
         ctx.broken.append({"what": "case file did not evaluate", "where": fn, "detail": o})
